@@ -29,8 +29,8 @@ def configs(tier, seed):
       cfgs.append(dict(name='%s/%d' % (proto, s), proto=proto, shard=s))
   # PICKLE_RECEIVER_MAX_LENGTH as configured ("set this to a higher value if you want to send big metric batches"): only a
   # frame above the configured maximum may close the connection
-  for ml in (3 * 2 ** 20, 2048, 2 ** 20 + 1):
-    cfgs.append(dict(name='pickle/limit%d' % ml, proto='pickle', shard=99, maxlen=ml))
+  for ml in (3 * 2 ** 20, 2048, 2 ** 20 + 1, 'default'):
+    cfgs.append(dict(name='pickle/limit%s' % ml, proto='pickle', shard=99, maxlen=ml))
   return cfgs
 
 
@@ -138,7 +138,7 @@ def run_config(cfg, res):
   resource.setrlimit(resource.RLIMIT_AS, (4 << 30, 4 << 30))
   from vlib import boot, proto
   from vlib.refs import codec
-  ns = boot.boot('carbon-cache', {'PICKLE_RECEIVER_MAX_LENGTH': cfg['maxlen']} if cfg.get('maxlen') else {})
+  ns = boot.boot('carbon-cache', {'PICKLE_RECEIVER_MAX_LENGTH': cfg['maxlen']} if cfg.get('maxlen') not in (None, 'default') else {})
   import carbon.protocols as P
   rec = proto.install_recorder()
   r = gen.rng(cfg['seed'], 'C11', cfg['name'])
@@ -211,7 +211,7 @@ def run_config(cfg, res):
         yield proto.cut(stream, pos), 'random@%s' % pos
 
   if cfg.get('maxlen'):
-    if MAXLEN != cfg['maxlen']:
+    if MAXLEN != (2 ** 20 if cfg['maxlen'] == 'default' else cfg['maxlen']):      # 1 MiB is the documented default
       res.inconc('PICKLE_RECEIVER_MAX_LENGTH not applied by the config path')
       return
     # the generated frames below assume the default maximum (some are ~200 kB): run them only where the maximum was raised
